@@ -49,7 +49,11 @@ impl<T: Copy, const CAPACITY: usize> StackStack<T, CAPACITY> {
 /// "foo/./bar" => "foo/bar".
 /// These paths can show up due to variable expansion in particular.
 pub fn canonicalize_path(path: &mut String) {
-    assert!(!path.is_empty());
+    if path.is_empty() {
+        // Like "./", the empty path names the current directory.
+        path.push('.');
+        return;
+    }
     let mut components = StackStack::<usize, 60>::new();
 
     // Safety: we will modify the string by removing some ASCII characters in place
